@@ -141,6 +141,11 @@ func UnderRecovery(name string) bool {
 	return strings.HasPrefix(strings.ToLower(name), strings.ToLower(Recovery))
 }
 
+// BelowRecovery tells whether the name is an inferior of the recovery mailbox.
+func (m *Model) BelowRecovery(name string) bool {
+	return m.Delim != "" && strings.HasPrefix(name, Recovery+m.Delim)
+}
+
 func (m *Model) isRecovery(name string) bool { return strings.EqualFold(name, Recovery) }
 
 // add brings a name into existence (subscribed, RFC-silent; gluon: tests/subscribe_test.go "Mailboxes are subscribed
@@ -249,7 +254,7 @@ func (m *Model) Rename(rawOld, rawNew string) Outcome {
 
 	// The recovery mailbox advertises \Noinferiors and CREATE refuses every name below it
 	// (TestRecoveryMBoxCanNotBeCreated "<name>/sub"): no inferior of it may come into existence through RENAME either.
-	if UnderRecovery(newName) {
+	if m.BelowRecovery(newName) {
 		return no("recovery mailbox is protected (no inferiors)")
 	}
 
@@ -459,6 +464,12 @@ func Match(pattern, name, delim string) bool {
 // TestListRef, TestListWildcards `list "some.thing" "*"`, TestListInbox `list "inb" "ox"`), and INBOX folding of the
 // first level when it is written without wildcards (TestListInbox, TestMailboxCase).
 func (m *Model) CanonPattern(ref, pattern string) string {
+	// RFC 3501 9: list = "LIST" SP mailbox SP list-mailbox, and mailbox = "INBOX" / astring with INBOX
+	// case-insensitive: a reference that spells "inbox" is INBOX before anything is appended to it.
+	if strings.EqualFold(ref, Inbox) {
+		ref = Inbox
+	}
+
 	full := ref + pattern
 	first := full
 
